@@ -1762,3 +1762,155 @@ pub fn check_c03_mux(sc: &Scenario, rr: &RunResult) -> Vec<Violation> {
         .map(|v| Violation::new("C03", &v.clause.replace("C01", "C03.mux"), v.signature, v.detail))
         .collect()
 }
+
+// ---------------------------------------------------------------------------------------------
+// C16: PagedResults adapter (family PAGED)
+// ---------------------------------------------------------------------------------------------
+
+pub fn check_c16(sc: &Scenario, rr: &RunResult) -> Vec<Violation> {
+    use crate::model::{req_ctrls_expect, req_expect, ReqExpect};
+    const PAGED: &[u8] = b"1.2.840.113556.1.4.319";
+    let mut v = check_clean_run("C16", rr);
+    if !v.is_empty() {
+        return v;
+    }
+    let Some(pm) = &sc.plan.paging else { return v };
+    let rets = returns_by_step(&rr.hist);
+    // cookies returned by the server, per token, in order
+    let mut cookies: BTreeMap<String, Vec<String>> = BTreeMap::new();
+    for e in &rr.hist {
+        if let EvKind::Note(n) = &e.kind {
+            if let Some(rest) = n.strip_prefix("page-cookie ") {
+                if let Some((tok, ck)) = rest.split_once(' ') {
+                    cookies.entry(tok.to_string()).or_default().push(ck.to_string());
+                }
+            }
+        }
+    }
+    for (c, cs) in sc.clients.iter().enumerate() {
+        for (ix, step) in cs.steps.iter().enumerate() {
+            let Step::Open { token, slot, search, adapter, mods } = step else { continue };
+            let size = match adapter {
+                crate::scenario::Adapter::Paged(n) | crate::scenario::Adapter::EntriesOnlyPaged(n) | crate::scenario::Adapter::PagedEntriesOnly(n) => *n,
+                _ => continue,
+            };
+            let Some((open_ret, ..)) = rets.get(&(c, ix)) else { continue };
+            let caller_has_paging = mods.controls.as_ref().map_or(false, |cs| cs.iter().any(|c| c.oid == PAGED));
+            let reqs: Vec<&crate::msg::Req> = rr.requests.iter().filter(|q| matches!(&q.op, crate::msg::ReqOp::Search { base, .. } if base == token.as_bytes())).collect();
+            if caller_has_paging {
+                // (e)
+                if !matches!(open_ret, Ret::Err(_)) {
+                    v.push(Violation::new("C16", "C16.e", "caller-paging-control-accepted", format!("client {c} step {ix}: the search started although the caller supplied a paging control: {:?}", open_ret)));
+                }
+                if !reqs.is_empty() {
+                    v.push(Violation::new("C16", "C16.e", "caller-paging-control-sent", format!("client {c} step {ix}: {} request(s) were sent", reqs.len())));
+                }
+                continue;
+            }
+            if **open_ret != Ret::Opened {
+                v.push(Violation::new("C16", "C16.a", "open-failed", format!("client {c} step {ix}: {:?}", open_ret)));
+                continue;
+            }
+            // (b)(c) request sequence
+            let want_op = match req_expect(&OpSpec::Search(search.clone()), mods.opts.as_ref(), |s| s.filter.clone()) {
+                ReqExpect::Sent(o) => o,
+                _ => continue,
+            };
+            let want_other = req_ctrls_expect(&mods.controls).unwrap_or_default();
+            let cks = cookies.get(token).cloned().unwrap_or_default();
+            for (i, q) in reqs.iter().enumerate() {
+                if q.op != want_op {
+                    v.push(Violation::new("C16", "C16.b", format!("request-{}-differs", if i == 0 { "first" } else { "follow-up" }), format!("client {c} {token} request {i}: wire {} model {}", clip(&format!("{:?}", q.op)), clip(&format!("{:?}", want_op)))));
+                }
+                let all = q.ctrls.clone().unwrap_or_default();
+                let others: Vec<crate::msg::Ctl> = all.iter().filter(|c| c.oid != PAGED).cloned().collect();
+                let pcs: Vec<&crate::msg::Ctl> = all.iter().filter(|c| c.oid == PAGED).collect();
+                if others != want_other {
+                    v.push(Violation::new("C16", "C16.b", format!("other-controls-differ-on-{}", if i == 0 { "first" } else { "follow-up" }), format!("client {c} {token} request {i}: wire {} model {}", clip(&format!("{:?}", others)), clip(&format!("{:?}", want_other)))));
+                }
+                if pcs.len() != 1 {
+                    v.push(Violation::new("C16", "C16.b", "paging-control-count", format!("client {c} {token} request {i} carries {} paging controls", pcs.len())));
+                    continue;
+                }
+                match pcs[0].val.as_ref().and_then(|x| crate::server::parse_paged_value(x)) {
+                    None => v.push(Violation::new("C16", "C16.b", "paging-control-value-malformed", format!("client {c} {token} request {i}"))),
+                    Some((sz, ck)) => {
+                        if sz != size as i64 {
+                            v.push(Violation::new("C16", "C16.b", "page-size-differs", format!("client {c} {token} request {i}: size {sz}, requested {size}")));
+                        }
+                        let want_ck = if i == 0 { String::new() } else { cks.get(i - 1).cloned().unwrap_or_else(|| "?".into()) };
+                        let want_ck = if want_ck == "-" { String::new() } else { want_ck };
+                        if crate::server::hex(&ck) != want_ck {
+                            v.push(Violation::new("C16", "C16.b", if i == 0 { "first-cookie-not-empty" } else { "cookie-not-forwarded" }, format!("client {c} {token} request {i}: cookie {} expected {}", crate::server::hex(&ck), want_ck)));
+                        }
+                        if i > 0 && want_ck.is_empty() {
+                            v.push(Violation::new("C16", "C16.c", "request-after-empty-cookie", format!("client {c} {token} request {i} follows a response with an empty cookie (or without paging control)")));
+                        }
+                    }
+                }
+            }
+            // (a)(d) values
+            let mut k = 0usize; // next entry index
+            let mut done = false;
+            let mut closed = false;
+            for (off, later) in cs.steps[ix + 1..].iter().enumerate() {
+                let six = ix + 1 + off;
+                match later {
+                    Step::Open { slot: s2, .. } if s2 == slot => break,
+                    Step::Next { slot: s2, .. } if s2 == slot => {
+                        let Some((ret, ..)) = rets.get(&(c, six)) else { continue };
+                        if **ret == Ret::Skipped || done || closed {
+                            continue;
+                        }
+                        let want = if k < pm.n {
+                            let e = crate::msg::RespOp::Entry { dn: format!("cn=e{k},{token}"), attrs: vec![("cn".into(), vec![format!("e{k}").into_bytes()])] };
+                            Ret::Item(Some(model::item_expect(&e, &None)))
+                        } else {
+                            Ret::Item(None)
+                        };
+                        if **ret != want {
+                            let sig = match ret {
+                                Ret::Item(Some(_)) if k >= pm.n => "entry-after-the-end",
+                                Ret::Item(Some(_)) => "wrong-entry (lost, duplicated or out of order)",
+                                Ret::Item(None) => "end-before-all-entries",
+                                _ => "error",
+                            };
+                            v.push(Violation::new("C16", "C16.a", sig, format!("client {c} step {six} ({token}, entry index {k} of {}): expected {} got {}", pm.n, clip(&format!("{:?}", want)), clip(&format!("{:?}", ret)))));
+                            break;
+                        }
+                        if k < pm.n {
+                            k += 1;
+                        } else {
+                            done = true;
+                        }
+                    }
+                    Step::Finish { slot: s2 } if s2 == slot => {
+                        let Some((ret, ..)) = rets.get(&(c, six)) else { continue };
+                        let want = if closed {
+                            model::synthetic(80)
+                        } else if done {
+                            let mut ctrls: Vec<crate::msg::Ctl> = pm.other_ctrls.clone();
+                            let _ = &mut ctrls;
+                            crate::world::ResC {
+                                rc: pm.final_rc,
+                                matched: String::new(),
+                                text: format!("{token}:page-done@{}", pm.n),
+                                refs: vec![],
+                                ctrls: ctrls.iter().map(model::ctl_expect).collect(),
+                            }
+                        } else {
+                            model::synthetic(88)
+                        };
+                        closed = true;
+                        if !model::fin_matches(ret, &Ret::Fin(want.clone())) {
+                            let has_paging = matches!(ret, Ret::Fin(r) if r.ctrls.iter().any(|c| c.oid.as_bytes() == PAGED));
+                            v.push(Violation::new("C16", "C16.d", if has_paging { "final-result-carries-paging-control" } else { "final-result-differs" }, format!("client {c} step {six}: expected {:?} got {}", want, clip(&format!("{:?}", ret)))));
+                        }
+                    }
+                    _ => {}
+                }
+            }
+        }
+    }
+    v
+}
